@@ -241,6 +241,58 @@ def gen_program(seed):
     return mod.hugr
 
 
+def gen_risky(seed):
+    """Programs that *may* be refused by the builders (declared outputs, recursion, case / exit rows chosen
+    at random): when a builder call raises the program is outside the property's domain; when none
+    does, the HUGR must be valid."""
+    import hugr.ops as O
+    import hugr.tys as T
+    import hugr.val as V
+    from hugr.build.cfg import Cfg
+    from hugr.build.cond_loop import Conditional
+    from hugr.build.function import Module
+    from hugr.std.int import INT_T
+    rnd = random.Random(seed)
+    rows = [[], [T.Bool], [T.Bool, T.Bool], [INT_T]]
+    kind = rnd.choice(["function", "function", "conditional", "cfg"])
+    if kind == "function":
+        mod = Module()
+        ins = rnd.choice([[T.Bool], [T.Bool, INT_T]])
+        declared = rnd.choice(rows + [None])
+        f = mod.define_function("f", ins, declared)
+        if declared is not None and rnd.random() < 0.7:
+            # a (recursive) use of the declaration before the body is finished
+            r = f.call(f, *f.inputs())
+        given = rnd.choice(rows)
+        pool = {repr(T.Bool): f.inputs()[0]}
+        if len(ins) > 1:
+            pool[repr(INT_T)] = f.inputs()[1]
+        f.set_outputs(*[pool[repr(t)] for t in given if repr(t) in pool])
+        main = mod.define_main([T.Bool] + ([INT_T] if len(ins) > 1 else []))
+        c = main.call(f, *main.inputs())
+        main.set_outputs(*[c[i] for i in range(len(given))])
+        return mod.hugr
+    if kind == "conditional":
+        r0, r1 = rnd.choice(rows[:3]), rnd.choice(rows[:3])
+        c = Conditional(T.Bool, [T.Bool])
+        with c.add_case(0) as k0:
+            k0.set_outputs(*[k0.inputs()[0]] * len(r0))
+        with c.add_case(1) as k1:
+            k1.set_outputs(*[k1.inputs()[0]] * len(r1))
+        return c.hugr
+    r0, r1 = rnd.choice(rows[:3]), rnd.choice(rows[:3])
+    cfg = Cfg(T.Bool)
+    with cfg.add_entry() as entry:
+        entry.set_block_outputs(*entry.inputs(), *entry.inputs())
+    with cfg.add_successor(entry[0]) as m1:
+        m1.set_single_succ_outputs(*[m1.inputs()[0]] * len(r0))
+    with cfg.add_successor(entry[1]) as m2:
+        m2.set_single_succ_outputs(*[m2.inputs()[0]] * len(r1))
+    cfg.branch_exit(m1[0])
+    cfg.branch_exit(m2[0])
+    return cfg.hugr
+
+
 def check(h):
     from hugr.hugr import Hugr
     from specs.validate import validate
@@ -274,7 +326,7 @@ def main():
     runs = 500 if tier == "quick" else 5000
     violations, seen = [], set()
     ev = skipped = nontrivial = 0
-    gens = [("random", gen_program)] + [(n, (lambda s, p=p: p(random.Random(s)))) for n, p in PROGRAMS] + [("module", gen_module)]
+    gens = [("random", gen_program)] + [(n, (lambda s, p=p: p(random.Random(s)))) for n, p in PROGRAMS] + [("module", gen_module), ("risky", gen_risky), ("risky", gen_risky)]
     for k in range(runs):
         seed = seed0 * 1000003 + k
         gname, g = gens[0] if k % 3 else gens[1 + (k // 3) % (len(gens) - 1)]
@@ -302,10 +354,10 @@ def main():
         idx = [n for n, _ in gens].index(gname)
         script = write_replay_script("C01", f"bounded_{len(violations)}", f"{gname} program, seed {seed} ({where} HUGR): {why}"[:700], f"""
 import random
-from bounded.c01 import gen_program, check
+from bounded.c01 import gen_program, gen_risky, check
 from bounded.c12 import gen_module
 from bounded.hugr_gen import PROGRAMS
-gens = [("random", gen_program)] + [(n, (lambda s, p=p: p(random.Random(s)))) for n, p in PROGRAMS] + [("module", gen_module)]
+gens = [("random", gen_program)] + [(n, (lambda s, p=p: p(random.Random(s)))) for n, p in PROGRAMS] + [("module", gen_module), ("risky", gen_risky), ("risky", gen_risky)]
 h = gens[{idx}][1]({seed})
 r = check(h)
 print("result:", r)
